@@ -495,8 +495,27 @@ func joinDuringGlobal(R *res.Result, c *cluster, T *node, jt *joinTrace, global 
 			skip("transfer " + dc + ": " + err.Error())
 			return
 		}
-		if !waitFor(75*time.Second, func() bool { return serves(L, dc) && !serves(X, dc) }) {
+		both := false
+		if !waitFor(75*time.Second, func() bool {
+			if serves(L, dc) && serves(X, dc) {
+				// both members hold an initialised allocator of dc and call themselves its leader: ask both
+				if _, e1 := L.s.GetTSOAllocatorManager().HandleTSORequest(dc, 1); e1 == nil {
+					if _, e2 := X.s.GetTSOAllocatorManager().HandleTSORequest(dc, 1); e2 == nil {
+						both = true
+					}
+				}
+			}
+			return serves(L, dc) && !serves(X, dc)
+		}) {
 			skip("allocator of " + dc + " did not move within 75 s")
+			if !both {
+				return
+			}
+		}
+		if both {
+			R.Violate("C05:two-allocator-leaders-at-once:during-a-transfer",
+				fmt.Sprintf("while the allocator of %s was transferred (next-leader key) the old and the new member both answered Local timestamps of %s", dc, dc),
+				map[string]interface{}{"dc": dc})
 			return
 		}
 		c.holder[dc] = L
